@@ -194,12 +194,16 @@ def _cond(built: Built, role: str, lvl: int, i: int, params: Tuple[str, ...], is
 
     name = "{}_{}_{}".format(role, lvl, i)
     built.names[name] = label
-    return _maybe_async(built, params, impl, name, role != "inv" and (built.async_level is None or built.async_level == lvl))
+    return _maybe_async(built, params, impl, name, role != "inv" and (built.async_level is None or built.async_level == lvl),
+                        index=i)
 
 
 def _maybe_async(built: "Built", params: Tuple[str, ...], impl: Callable[[Dict[str, Any]], Any], name: str,
-                 allowed: bool) -> Callable[..., Any]:
+                 allowed: bool, index: int = 0) -> Callable[..., Any]:
     mode = built.async_conds if allowed else 0
+    if mode == 4:
+        # mixed: within one level the conditions / captures at even positions are coroutine functions, the others plain
+        mode = 1 if index % 2 == 0 else 0
     if mode == 0:
         return mkfn(params, impl, name=name)
 
@@ -224,7 +228,8 @@ def _capture(built: Built, lvl: int, i: int, params: Tuple[str, ...]) -> Callabl
             return rt.capture(lvl, i, kw)
         return ("captured", lvl, i)
 
-    return _maybe_async(built, params, impl, "cap_{}_{}".format(lvl, i), built.async_level is None or built.async_level == lvl)
+    return _maybe_async(built, params, impl, "cap_{}_{}".format(lvl, i), built.async_level is None or built.async_level == lvl,
+                        index=i)
 
 
 def _body(built: Built, params: Tuple[str, ...], is_async: bool, name: str, kind: str) -> Callable[..., Any]:
